@@ -159,6 +159,8 @@ class Ctx:
             return True
         if z3.is_false(cond):
             return False
+        if self.pos > 3000:
+            raise Unsupported("more than 3000 symbolic decisions on one path (non-terminating loop?)")
         if self.pos < len(self.decisions):
             d = self.decisions[self.pos]
         else:
